@@ -55,6 +55,8 @@ TokSp(t) == (t - 1000) % 8
 
 MaxCp == 1114111
 IsSurr(cp) == cp >= 55296 /\ cp <= 57343
+IsHighSurr(cp) == cp >= 55296 /\ cp <= 56319
+IsLowSurr(cp)  == cp >= 56320 /\ cp <= 57343
 ShortSet == {34, 92, 47, 8, 9, 10, 12, 13}        \* " \ / \b \t \n \f \r
 HexLetter(n) == \E d \in {n % 16, (n \div 16) % 16, (n \div 256) % 16, (n \div 4096) % 16} : d >= 10
 OddHexLetter(n)  == (n \div 4096) % 16 >= 10 \/ (n \div 16) % 16 >= 10      \* digit 1 or 3 is a letter
@@ -223,12 +225,19 @@ Okay(v, p, ill) == [ok |-> TRUE, ill |-> ill, v |-> v, p |-> p]
 RECURSIVE SkipWs(_, _)
 SkipWs(T, i) == IF i <= Len(T) /\ T[i] \in WsToks THEN SkipWs(T, i + 1) ELSE i
 
+\* \uXXXX escapes denote UTF-16 code units (RFC 8259 section 7): an escaped high surrogate directly followed by
+\* an escaped low surrogate is the supplementary code point, however the two escapes were tokenised; any other
+\* surrogate is unpaired and makes the string ill-formed.
+PushCp(acc, cp) ==
+    IF IsLowSurr(cp) /\ acc # <<>> /\ IsHighSurr(acc[Len(acc)])
+    THEN SubSeq(acc, 1, Len(acc) - 1) \o <<65536 + (acc[Len(acc)] - 55296) * 1024 + (cp - 56320)>>
+    ELSE Append(acc, cp)
 RECURSIVE PStr(_, _, _, _)      \* i: just after the opening quote
 PStr(T, i, acc, ill) ==
     IF i > Len(T) THEN Fail
-    ELSE IF T[i] = Quote THEN Okay(VStr(acc), i + 1, ill)
+    ELSE IF T[i] = Quote THEN Okay(VStr(acc), i + 1, ill \/ \E j \in DOMAIN acc : IsSurr(acc[j]))
     ELSE IF IsChTok(T[i]) /\ SpellingOK(TokCp(T[i]), TokSp(T[i]))
-         THEN PStr(T, i + 1, Append(acc, TokCp(T[i])), ill \/ IsSurr(TokCp(T[i])))
+         THEN PStr(T, i + 1, PushCp(acc, TokCp(T[i])), ill)
     ELSE Fail
 
 RECURSIVE NumEnd(_, _)
@@ -311,6 +320,27 @@ IsCanonicalText(T) ==
     /\ \A i \in DOMAIN T : IsChTok(T[i]) => ShortestSp(TokCp(T[i]), TokSp(T[i]))
     /\ KeysAscending(r.v)                               \* members in text order
     /\ ~HasNegZeroLit(r.v)
+
+\* Texts outside "valid" that the library accepts anyway (unpaired surrogate escapes, duplicate keys): the statement
+\* does not fix their output, but the output must not *invent* a value: every supplementary code point in it must
+\* be one the text really holds (a raw one or a genuine escaped pair).  In particular a text with an invalid pair
+\* (low-high, high-high, high + other) can never canonicalise to the bytes of the text with a genuine pair.
+RECURSIVE AstralOf(_)
+RECURSIVE AstralOfSeq(_, _)
+AstralOfSeq(c, i) == IF i > Len(c) THEN <<>>
+                     ELSE SelectSeq(c[i].key, LAMBDA x : x >= 65536) \o AstralOf(c[i].val) \o AstralOfSeq(c, i + 1)
+AstralOf(v) == IF v.k = "str" THEN SelectSeq(v.s, LAMBDA x : x >= 65536) ELSE AstralOfSeq(v.c, 1)
+\* supplementary code points in UTF-8 bytes (4-byte sequences)
+RECURSIVE AstralInBytes(_, _)
+AstralInBytes(b, i) ==
+    IF i > Len(b) THEN <<>>
+    ELSE IF b[i] >= 240 /\ i + 3 <= Len(b)
+         THEN <<(b[i] - 240) * 262144 + (b[i + 1] - 128) * 4096 + (b[i + 2] - 128) * 64 + (b[i + 3] - 128)>>
+              \o AstralInBytes(b, i + 4)
+    ELSE AstralInBytes(b, i + 1)
+CountIn(s, x) == Cardinality({i \in DOMAIN s : s[i] = x})
+BagIncluded(s, t) == \A i \in DOMAIN s : CountIn(s, s[i]) <= CountIn(t, s[i])
+NoInventedAstral(outBytes, v) == BagIncluded(AstralInBytes(outBytes, 1), AstralOf(v))
 
 \* the enforced variant (room version 6 and later): refuse iff some number is not admissible
 EnforcedMustReject(v) == InadmissibleLits(v) # <<>>
@@ -447,6 +477,10 @@ CorUnquotedKey   == todo # <<>> /\ Top.k = "key" /\ Spoil("unquoted_key", "inval
 CorBareValue     == todo # <<>> /\ Top.k = "val" /\ Top.v.k \in {"null", "true", "false"}
                     /\ Spoil("bare_value", "invalid", <<Bare>>, Tail(todo))
 CorLoneSurrogate(c, sp) == InString /\ Spoil("lone_surrogate", "illformed", <<ChTok(c, sp)>>, todo)
+\* two escapes that are not a pair: low-high, high-high, high + U+0200, low-low, high + escaped quote; the second
+\* halves share their low ten bits with DE00, the low half of the genuine pair D83D DE00 = U+1F600
+BadPairs == { <<56832, 55357>>, <<55357, 55808>>, <<55357, 512>>, <<56832, 56832>>, <<55357, 34>> }
+CorBadPair(p, sp) == InString /\ Spoil("bad_pair", "illformed", <<ChTok(p[1], sp), ChTok(p[2], sp)>>, todo)
 CorTrailingGarbage(t) == todo = <<>> /\ Spoil("trailing_garbage", "invalid", <<t>>, todo)
 
 Corrupt == \/ CorTruncate \/ CorTrailingComma \/ CorDoubleComma \/ CorDropColon
@@ -455,6 +489,7 @@ Corrupt == \/ CorTruncate \/ CorTrailingComma \/ CorDoubleComma \/ CorDropColon
            \/ \E l \in BadNums : CorBadNumber(l)
            \/ CorUnquotedKey \/ CorBareValue
            \/ \E c \in LoneSurrogates, sp \in {SpULower, SpUUpper} : CorLoneSurrogate(c, sp)
+           \/ \E p \in BadPairs, sp \in {SpULower, SpUUpper} : CorBadPair(p, sp)
            \/ \E t \in Garbage : CorTrailingGarbage(t)
 
 TopIs(k) == todo # <<>> /\ Top.k = "val" /\ Top.v.k = k
